@@ -348,6 +348,32 @@ func maxRun(lines []string, ch byte) int {
 	return m
 }
 
+// closingRun: if the line, indented by extra more columns, could close a fenced
+// block whose fence character is ch (at most three columns of indentation,
+// then only fence characters, then only spaces and tabs), the length of its
+// run; otherwise 0.
+func closingRun(l string, extra int, ch byte) int {
+	i := 0
+	for i < len(l) && l[i] == ' ' {
+		i++
+	}
+	if i+extra > 3 {
+		return 0
+	}
+	n := 0
+	for i < len(l) && l[i] == ch {
+		i++
+		n++
+	}
+	for i < len(l) && (l[i] == ' ' || l[i] == '\t') {
+		i++
+	}
+	if i < len(l) {
+		return 0
+	}
+	return n
+}
+
 func (s *Ser) block(b *Block, c sctx) []line {
 	var out []line
 	switch b.K {
@@ -402,12 +428,22 @@ func (s *Ser) block(b *Block, c sctx) []line {
 		if strings.Contains(b.InfoSrc, "`") || s.pick("fencechar", 2) == 1 {
 			ch = '~'
 		}
+		ind := s.indent(c)
 		n := 3
-		if m := maxRun(b.Lines, ch); m >= n {
+		if s.pick("minfence", 2) == 1 {
+			// the shortest fence that no content line can close: only lines
+			// that are closing fences as written (their own leading spaces plus
+			// the opening fence's indentation come to at most three columns,
+			// nothing but spaces and tabs after the run) count
+			for _, l := range b.Lines {
+				if m := closingRun(l, len(ind), ch); m >= n {
+					n = m + 1
+				}
+			}
+		} else if m := maxRun(b.Lines, ch); m >= n {
 			n = m + 1
 		}
 		n += s.pick("fencelong", 3) / 2
-		ind := s.indent(c)
 		open := ind + strings.Repeat(string(ch), n)
 		if b.InfoSrc != "" {
 			open += strings.Repeat(" ", s.pick("infosp", 2)) + b.InfoSrc + strings.Repeat(" ", s.pick("infotrail", 2))
